@@ -58,9 +58,28 @@ def GoodAmts (ps : List RPost) : Prop := ∀ p ∈ ps, ∃ v, subAmt p = some v 
 /-- decidable form of the first half of `GoodAmts` -/
 def noCompound (ps : List RPost) : Bool := ps.all (fun p => (subAmt p).isSome)
 
-theorem subAmt_some {p : RPost} {v : Value} (h : subAmt p = some v) : p.amount = v := by
-  unfold subAmt at h
-  split at h <;> simp_all
+theorem subAmtWith_some (rc : Bool) {p : RPost} {v : Value} (h : subAmtWith rc p = some v) : p.amount = v := by
+  unfold subAmtWith at h
+  cases rc with
+  | true => simpa using h
+  | false =>
+    simp only [Bool.false_eq_true, if_false] at h
+    split at h <;> simp_all
+
+/-- a journal posting's single amount is read the same way under either shape of the source -/
+theorem subAmt_amt {p : RPost} {a : Amount} (h : p.amount = .amt a) : subAmt p = some (.amt a) := by
+  unfold subAmt subAmtWith
+  cases Gen.Regroup.subtotalReadsCompound <;> simp [h]
+
+theorem subAmt_some {p : RPost} {v : Value} (h : subAmt p = some v) : p.amount = v :=
+  subAmtWith_some _ h
+
+/-- when subtotal_posts reads the compound value, every posting has a readable amount -/
+theorem noCompound_of_flag (hf : Gen.Regroup.subtotalReadsCompound = true) (ps : List RPost) :
+    noCompound ps = true := by
+  apply List.all_eq_true.mpr
+  intro p _
+  simp [subAmt, subAmtWith, hf]
 
 theorem rawAmt_eq_amount {p : RPost} {v : Value} (h : subAmt p = some v) : rawAmt p = p.amount := by
   rw [subAmt_some h]; simp [rawAmt, h]
